@@ -434,12 +434,12 @@ def run(ctx):
     ctx.build("C18", deps=["Model/TaskGraph.v"])
     quick = ctx.tier == "quick"
     rng = ctx.rng
-    n = 550 if quick else 10000
+    n = 550 if quick else 6000
     kinds = ["sched", "sched", "sched", "releasable", "notify", "notify", "ready", "resolve", "topo", "dfs", "flags"]
     triples = [rand_case(rng, kinds) for _ in range(n)]
     triples += [sane_case(rng) for _ in range(n // 4)]
     # every switch combination x several lookaheads x policies on the same graph
-    for _ in range(4 if quick else 120):
+    for _ in range(4 if quick else 60):
         a, t, _op = rand_case(rng, ["flags"])
         time = rng.choice([3, 8])
         draws = [rng.randrange(2) for _ in range(12)]
@@ -462,7 +462,7 @@ def run(ctx):
     pairs = []
     for i in range(len(triples)):
         a, t, op = triples[i]
-        if op[0] == "sched" and len(pairs) < (200 if quick else 3000):
+        if op[0] == "sched" and len(pairs) < (200 if quick else 1500):
             triples.append((a, t, ["sched", bigger(rng, op[1]), op[2]]))
             pairs.append((i, len(triples) - 1))
     ctx.rules.append("S-taskgraph: (DAG x per-task state vector x operation) on 1-8 nodes: random DAGs with random key/children "
@@ -488,7 +488,7 @@ def run(ctx):
     # ---- S-fallback: a task scheduled ahead of its release, released while SCHEDULED, then unscheduled
     # (REAL Task.schedule / release / unschedule calls): it is VIRTUAL again, and must still be offered
     fb = []
-    while len(fb) < (40 if quick else 600):
+    while len(fb) < (40 if quick else 300):
         a, t, _o = sane_case(rng)
         par = parents_of(a)
         cand = [n2 for n2 in key_order(a) if par[n2] and all(t[p][0] == 7 for p in par[n2])]
@@ -526,7 +526,7 @@ def run(ctx):
     # ---- S-workload
     wl_cases = []
     wl_payload = []
-    for _ in range(60 if quick else 800):
+    for _ in range(60 if quick else 400):
         gs = []
         for gi in range(rng.choice([2, 2, 3])):
             a, t, _ = rand_case(rng, ["flags"])
